@@ -35,9 +35,54 @@ Qed.
 (* 1. the image of the decoder: hit objects                            *)
 (* ================================================================== *)
 
+(* a decoded slider has at least one control point (the typed point at the origin) *)
+Lemma mark_last_nonnil ty seg : seg <> [] -> mark_last ty seg <> [].
+Proof. destruct seg as [|a [|b r]]; cbn; congruence. Qed.
+
+Lemma split_dups_nonnil ty : forall rest i prev seg, seg <> [] \/ rest <> [] -> split_dups ty i prev seg rest <> [].
+Proof.
+  induction rest as [|v rest' IH]; intros i prev seg H; cbn [split_dups].
+  - destruct H as [H|H]; [exact H|congruence].
+  - destruct (pos_eqb (cp_pos v) (cp_pos prev) && negb (pt_eqb ty pt_catmull && (1 <? i)%nat) && negb (is_nil rest'))%bool eqn:E.
+    + intros Habs. apply app_eq_nil in Habs. destruct Habs as (_ & Habs).
+      revert Habs. apply IH. right. destruct rest'; [|congruence].
+      cbn in E. rewrite andb_false_r in E. discriminate.
+    + apply IH. left. destruct seg; cbn; congruence.
+Qed.
+
+Lemma seg_spec_nonnil first toks closing offset a : seg_spec first toks closing offset = Some a -> a <> [].
+Proof.
+  unfold seg_spec. destruct toks as [|letter pts]; [discriminate|].
+  destruct (read_all pts offset) as [own|]; [|discriminate].
+  destruct (match closing with Some c => _ | None => _ end) as [cl|]; [|discriminate].
+  destruct ((if first then [pcp_default] else []) ++ own) as [|v0 rest]; [discriminate|].
+  intros [= <-]. apply split_dups_nonnil. left. congruence.
+Qed.
+
+Lemma path_segs_nonnil : forall rest first cur offset cps, path_segs first cur rest offset = (cps, true) -> cps <> [].
+Proof.
+  induction rest as [|t rest' IH]; intros first cur offset cps; cbn [path_segs].
+  - destruct (seg_spec first cur None offset) as [a|] eqn:E; [|discriminate].
+    intros [= <-]. exact (seg_spec_nonnil _ _ _ _ _ E).
+  - destruct t as [|c t']; [discriminate|].
+    destruct (is_ascii_alpha c).
+    + destruct (seg_spec first cur (fst (next rest')) offset) as [a|] eqn:E; [|discriminate].
+      destruct (path_segs false _ rest' offset) as [b ok]. intros H. injection H as Hc Hok. subst cps.
+      pose proof (seg_spec_nonnil _ _ _ _ _ E) as Ha. intros Habs. apply app_eq_nil in Habs.
+      destruct Habs as (Habs & _). exact (Ha Habs).
+    + apply IH.
+Qed.
+
+Lemma path_spec_nonnil s offset : snd (path_spec s offset) = true -> fst (path_spec s offset) <> [].
+Proof.
+  unfold path_spec. destruct (split_on 124 s) as [|t0 rest]; [discriminate|].
+  destruct (path_segs true [t0] rest offset) as [cps ok] eqn:E. cbn [fst snd]. intros ->.
+  exact (path_segs_nonnil _ _ _ _ _ E).
+Qed.
+
 (* what the line parser guarantees of a slider *)
 Definition slider_img (s : Slider) : Prop :=
-  0 <= sl_repeat_count s < repeat_cap /\ req_ok (sl_expected_dist s).
+  0 <= sl_repeat_count s < repeat_cap /\ req_ok (sl_expected_dist s) /\ sl_control_points s <> [].
 
 Definition obj_img (h : HitObject) : Prop :=
   match h_kind h with KSlider s => slider_img s | _ => True end.
@@ -51,10 +96,11 @@ Proof.
   exists obj. split; [exact Ho|]. unfold obj_img.
   destruct (h_kind obj) as [c|s|sp|hd]; try exact I.
   cbn [kind_ok] in Hk.
-  destruct Hk as (_ & _ & _ & _ & (raw & _ & Hraw & Hrep) & _ & _ & Hlen & _).
-  split; [unfold repeat_cap in *; lia|].
-  unfold req_ok. destruct (sl_expected_dist s) as [v|]; [|exact I].
-  exact (proj2 (Hlen v eq_refl)).
+  destruct Hk as (_ & _ & _ & _ & (raw & _ & Hraw & Hrep) & _ & _ & Hlen & Hcps & Hok).
+  split; [unfold repeat_cap in *; lia|]. split.
+  - unfold req_ok. destruct (sl_expected_dist s) as [v|]; [|exact I].
+    exact (proj2 (Hlen v eq_refl)).
+  - rewrite Hcps. exact (path_spec_nonnil _ _ Hok).
 Qed.
 
 Lemma parse_hit_objects_img st line st' r :
